@@ -212,6 +212,12 @@ VPSCK = dict(
 
 JOBS = {"vpsck": VPSCK, "rect": RECT, "comparators": COMPARATORS, "geometry": GEOMETRY, "makepath": MAKEPATH, "sepdir": SEPDIR, "tri": TRI, "seppair": SEPPAIR, "pindirs": PINDIRS}
 
+# further jobs live in their own files jobs_<topic>.py (each defines a dict JOBS), so that they can be maintained independently
+import importlib.util as _ilu
+for _f in sorted(Path(__file__).resolve().parent.glob("jobs_*.py")):
+    _spec = _ilu.spec_from_file_location(_f.stem, _f); _m = _ilu.module_from_spec(_spec); _spec.loader.exec_module(_m)
+    JOBS.update(_m.JOBS)
+
 def regenerate(names, ROOT, REPO):
     info = {}
     for n in names:
